@@ -229,8 +229,22 @@ fn run(c: &SlotSeq, obs: &mut Obs) -> Result<(), String> {
     Ok(())
 }
 
+/// "Consequently slots invented internally never capture a user slot": the matcher's validity oracle of C05, with the
+/// pattern's slots spelled with the names the library invented for class parameters (the user is free to write `$f7`).
+/// Metamorphic: the same case with ordinary pattern slot names must pass first (otherwise the failure is C05's, not C17's).
+fn run_no_capture_matching(c: &super::c05::MatchCase, obs: &mut Obs) -> Result<(), String> {
+    let mut plain = c.clone();
+    plain.pat_naming = 0;
+    let mut o2 = Obs::default();
+    if super::c05::run(&plain, &mut o2).is_err() {
+        obs.label("fails-with-ordinary-names-too");
+        return Ok(());
+    }
+    super::c05::run(c, obs).map_err(|e| format!("with the pattern's slots named like existing class parameter slots ($f<n>), but not with ordinary names: {e}"))
+}
+
 pub fn property(tier: Tier) -> Property {
-    let stages: Vec<Box<dyn DynStage>> = vec![Box::new(Stage {
+    let mut stages: Vec<Box<dyn DynStage>> = vec![Box::new(Stage {
         name: "slot-seq",
         source: random(
             || proptest::collection::vec(op_strategy(), 0..40).prop_map(|ops| SlotSeq { ops }).boxed(),
@@ -243,6 +257,35 @@ pub fn property(tier: Tier) -> Property {
         case_timeout_s: 60,
         exhaustive: false,
     })];
+    for (name, lang, q, t) in [("no-capture-matching-core", crate::langs::LangId::Core, 3000u32, 60_000u32), ("no-capture-matching-lambda", crate::langs::LangId::Lambda, 1500, 30_000)] {
+        stages.push(Box::new(Stage {
+            name,
+            source: random(
+                move || {
+                    super::c05::strategy(lang)
+                        .prop_map(|mut c| {
+                            c.pat_naming = 1;
+                            c
+                        })
+                        .boxed()
+                },
+                tier.pick(q, t),
+            ),
+            run: run_no_capture_matching,
+            panic_is_violation: false,
+            render: |c: &super::c05::MatchCase| {
+                format!(
+                    "{} pattern slots named like existing class slots; patterns={:?} multi={:?}",
+                    c.base.render(),
+                    c.pats.iter().map(|p| crate::pat::render_pat(p, &crate::tm::Naming::Alpha)).collect::<Vec<_>>(),
+                    c.multi.iter().map(|e| e.iter().map(|(v, t)| format!("?{} == {}", v, crate::pat::render_pat(t, &crate::tm::Naming::Alpha))).collect::<Vec<_>>().join(", ")).collect::<Vec<_>>()
+                )
+            },
+            rule: "the consequence clause (internally invented slots never capture a user slot): a reachable e-graph, then patterns and multi-patterns whose slots are spelled with the names of parameter slots of existing classes ($f<n>, parsed after the e-graph was populated, so that user slot and internal slot coincide); every reported match must be total and its instance represented, multi-pattern equations must hold; judged only if the same case passes with ordinary slot names; non-trivial = at least one match on an e-graph with an effective union; distinct by rendered case",
+            case_timeout_s: tier.pick(30, 120),
+            exhaustive: false,
+        }));
+    }
     Property {
         id: "C17", scale: tier.pick(2, 1),
         stages,
